@@ -76,3 +76,18 @@ Theorem C11_open_and_parse_errors :
                      parse_block blk = PRaise payload ptime (PE_Other e))).
 Proof. exact open_and_parse_errors. Qed.
 Print Assumptions C11_open_and_parse_errors.
+
+(* the block stored for an edition is exactly the lines from its start flag to
+   its end flag (no comment line, no diverted balance/dump section inside),
+   stored under the edition's batch number *)
+Theorem C11_scan_blocks_keyed_by_batch :
+  forall (L : Type) (s0 : st L) t0 l0 body te le f s',
+  s_bs s0 = None -> s_fatal (set_flags s0 l0) = false -> s_init s0 <> None ->
+  not_comment l0 -> contains kw_RESULTS l0 = true ->
+  (forall t l, In (t, l) body -> plain_line l) ->
+  not_comment le -> not_diverting le -> is_end_flag le = Some f ->
+  run s0 ((t0, l0) :: body ++ [(te, le)]) = OkS s' ->
+  exists bn, s_stores s' = (bn, t0 :: map fst body ++ [te]) :: s_stores s0 /\
+             od_get Z.eqb (s_coll s') bn = Some (t0 :: map fst body ++ [te]).
+Proof. exact @scan_blocks_keyed_by_batch. Qed.
+Print Assumptions C11_scan_blocks_keyed_by_batch.
